@@ -173,14 +173,22 @@ pub fn run_explorer(prop: &str, tier: Tier, ext: bool) -> J {
 pub fn run_with_monitor(l: &mut Local, prop: &'static str, lines: &[(Vec<u8>, bool)]) {
     let mut p = Parser::new();
     let mut m = MState::Closed;
+    // both flavours of the monitor run side by side: where they disagree a documented capacity is
+    // exceeded and every build records the same token (C18)
+    let (mut m_alloc, mut m_noalloc) = (MState::Closed, MState::Closed);
     let mut f: Findings = Vec::new();
     let mut delivered = false;
     for (i, (line, decode)) in lines.iter().enumerate() {
         let d0 = p.state();
         let (exp, m1) = asm::step(&m, line, *decode, subj::NOALLOC);
+        let (ea, ma) = asm::step(&m_alloc, line, *decode, false);
+        let (en, mn) = asm::step(&m_noalloc, line, *decode, true);
+        let capacity_zone = ea != en || ma != mn || m_noalloc == MState::Poisoned;
+        m_alloc = ma;
+        m_noalloc = mn;
         let out = p.parse(line, *decode);
         let d1 = p.state();
-        l.outcome(out.digest());
+        l.outcome(if capacity_zone { crate::par::CAP_TOKEN } else { out.digest() });
         if i + 1 == lines.len() {
             l.class(out.class());
         }
@@ -669,7 +677,15 @@ struct SplitCase {
 }
 
 /// Judge one fragmented transmission of `payload` cut at `cuts`.
-fn judge_split(l: &mut Local, c: &SplitCase, id: &[u8], prior: u64, noise: u64, decode: bool) {
+fn viol(l: &mut Local, report: bool, sig: &str, d: impl FnOnce() -> J) {
+    if report {
+        l.violation(sig, d);
+    }
+}
+
+fn judge_split(l: &mut Local, prop: &str, c: &SplitCase, id: &[u8], prior: u64, noise: u64, decode: bool) {
+    // the differential oracle belongs to C05; other properties reuse the space for totality / digests
+    let report = prop == "C05";
     use ais::sentence::{AisFragments, AisSentence};
     let mut bounds = vec![0usize];
     bounds.extend_from_slice(&c.cuts);
@@ -717,7 +733,7 @@ fn judge_split(l: &mut Local, c: &SplitCase, id: &[u8], prior: u64, noise: u64, 
                 let (o, _, _) = feed(&mut p, &mut p_opt, &mut p_res, &line, &mut all_lines);
                 let good = if kind_unfrag { matches!(o, Out::Complete(_)) } else { matches!(o, Out::Err(_)) };
                 if !good {
-                    l.violation("split.noise-outcome", || describe("a noise line between the fragments did not get its own outcome", &all_lines, &o));
+                    viol(l, report, "split.noise-outcome", || describe("a noise line between the fragments did not get its own outcome", &all_lines, &o));
                     return;
                 }
             }
@@ -741,7 +757,7 @@ fn judge_split(l: &mut Local, c: &SplitCase, id: &[u8], prior: u64, noise: u64, 
                         && s.chan == Some(mk.chan[0] as char)
                         && s.id == recognise(&line).and_then(|q| q.id);
                     if !own {
-                        l.violation("split.incomplete-fields", || describe("a non-final fragment's Incomplete does not carry its own fields", &all_lines, &o));
+                        viol(l, report, "split.incomplete-fields", || describe("a non-final fragment's Incomplete does not carry its own fields", &all_lines, &o));
                         return;
                     }
                 }
@@ -750,13 +766,13 @@ fn judge_split(l: &mut Local, c: &SplitCase, id: &[u8], prior: u64, noise: u64, 
                         l.class("capacity");
                         return;
                     }
-                    l.violation("split.nonfinal-not-incomplete", || describe("a non-final in-order fragment did not yield Incomplete", &all_lines, &o));
+                    viol(l, report, "split.nonfinal-not-incomplete", || describe("a non-final in-order fragment did not yield Incomplete", &all_lines, &o));
                     return;
                 }
             }
             // conversions: Incomplete -> None / Err
             if !matches!(conv_o, Ok(Some(None))) || !matches!(conv_r, Ok(Some(Err(())))) {
-                l.violation("split.conversion", || describe("Into<Option>/Into<Result> of an Incomplete result is not None/Err", &all_lines, &o));
+                viol(l, report, "split.conversion", || describe("Into<Option>/Into<Result> of an Incomplete result is not None/Err", &all_lines, &o));
                 return;
             }
         } else {
@@ -764,15 +780,15 @@ fn judge_split(l: &mut Local, c: &SplitCase, id: &[u8], prior: u64, noise: u64, 
             match (&o, &reference) {
                 (Out::Complete(s), Out::Complete(rf)) => {
                     if s.data != c.payload {
-                        l.violation("split.wrong-payload", || describe("the Complete payload is not the exact concatenation", &all_lines, &o));
+                        viol(l, report, "split.wrong-payload", || describe("the Complete payload is not the exact concatenation", &all_lines, &o));
                         return;
                     }
                     if s.msg != rf.msg {
-                        l.violation("split.message-differs", || describe("the decoded message differs from the unfragmented transmission", &all_lines, &o));
+                        viol(l, report, "split.message-differs", || describe("the decoded message differs from the unfragmented transmission", &all_lines, &o));
                         return;
                     }
                     if s.n as usize != m || s.k as usize != m || s.fill != c.fill {
-                        l.violation("split.complete-fields", || describe("the Complete result does not carry the last fragment's fields", &all_lines, &o));
+                        viol(l, report, "split.complete-fields", || describe("the Complete result does not carry the last fragment's fields", &all_lines, &o));
                         return;
                     }
                     // conversions: Complete -> Some(sentence) / Ok(sentence), the same sentence
@@ -780,7 +796,7 @@ fn judge_split(l: &mut Local, c: &SplitCase, id: &[u8], prior: u64, noise: u64, 
                     let ok_o = matches!(&conv_o, Ok(Some(Some(x))) if same(x));
                     let ok_r = matches!(&conv_r, Ok(Some(Ok(x))) if same(x));
                     if !ok_o || !ok_r {
-                        l.violation("split.conversion", || describe("Into<Option>/Into<Result> of a Complete result is not exactly the sentence", &all_lines, &o));
+                        viol(l, report, "split.conversion", || describe("Into<Option>/Into<Result> of a Complete result is not exactly the sentence", &all_lines, &o));
                         return;
                     }
                     l.nontrivial();
@@ -788,7 +804,7 @@ fn judge_split(l: &mut Local, c: &SplitCase, id: &[u8], prior: u64, noise: u64, 
                 (Out::Err(e), Out::Err(_)) if !e.is_checksum() => {
                     // undecodable both ways (only with decode = true)
                     if !decode {
-                        l.violation("split.rejected", || describe("in-order group rejected", &all_lines, &o));
+                        viol(l, report, "split.rejected", || describe("in-order group rejected", &all_lines, &o));
                     }
                 }
                 _ => {
@@ -796,7 +812,7 @@ fn judge_split(l: &mut Local, c: &SplitCase, id: &[u8], prior: u64, noise: u64, 
                         l.class("capacity");
                         return;
                     }
-                    l.violation("split.differs-from-unfragmented", || describe("fragmented and unfragmented transmission disagree", &all_lines, &o));
+                    viol(l, report, "split.differs-from-unfragmented", || describe("fragmented and unfragmented transmission disagree", &all_lines, &o));
                     return;
                 }
             }
@@ -821,7 +837,6 @@ fn with_context(i: u64) -> (u64, &'static [u8], u64, u64, bool) {
 
 /// every 2-split of every corpus payload × contexts
 pub fn split2(prop: &'static str) -> Space {
-    let _ = prop;
     let cp = corpus();
     let mut starts = Vec::new();
     let mut total = 0u64;
@@ -846,14 +861,13 @@ pub fn split2(prop: &'static str) -> Space {
                 cuts: vec![cut],
                 name: cp[ci].0.clone(),
             };
-            judge_split(l, &c, id, prior, noise, decode);
+            judge_split(l, prop, &c, id, prior, noise, decode);
         },
     )
 }
 
 /// every 3-split of every corpus payload of at most `max_len` characters × contexts
 pub fn split3(prop: &'static str, max_len: usize) -> Space {
-    let _ = prop;
     let cp: Vec<_> = corpus().into_iter().filter(|c| c.1.len() <= max_len).collect();
     let mut starts = Vec::new();
     let mut total = 0u64;
@@ -891,14 +905,13 @@ pub fn split3(prop: &'static str, max_len: usize) -> Space {
                 cuts: vec![a as usize + 1, b as usize + 1],
                 name: cp[ci].0.clone(),
             };
-            judge_split(l, &c, id, prior, noise, decode);
+            judge_split(l, prop, &c, id, prior, noise, decode);
         },
     )
 }
 
 /// every composition of a 12-character payload (type 10) into 2..=9 parts × contexts
 pub fn split_compositions(prop: &'static str) -> Space {
-    let _ = prop;
     let cp: Vec<_> = corpus().into_iter().filter(|c| c.0 == "T10").collect();
     let (name, payload, fill) = cp[0].clone();
     assert_eq!(payload.len(), 12);
@@ -919,14 +932,13 @@ pub fn split_compositions(prop: &'static str) -> Space {
                 cuts,
                 name: name.clone(),
             };
-            judge_split(l, &c, id, prior, noise, decode);
+            judge_split(l, prop, &c, id, prior, noise, decode);
         },
     )
 }
 
 /// payload content is opaque to reassembly: every position × every byte value except ',' and '*'
 pub fn split_opaque(prop: &'static str) -> Space {
-    let _ = prop;
     Space::new(
         "ASM-SPLIT-OPAQUE",
         "16-byte payload x every position x every byte value except ',' and '*' x 3 cut points, decode off",
@@ -948,7 +960,7 @@ pub fn split_opaque(prop: &'static str) -> Space {
                 cuts: vec![cut],
                 name: "opaque".into(),
             };
-            judge_split(l, &c, b"5", 0, 0, false);
+            judge_split(l, prop, &c, b"5", 0, 0, false);
         },
     )
 }
